@@ -37,6 +37,9 @@ def cases(tier, seed):
             nT = max(2, min(nT, 1100))
             nZ = rng.choice([2, 3, 7, 50, bs[2] - 1, bs[2], bs[2] + 1, 2 * bs[2] + 1])
             nZ = max(2, min(nZ, 1200))
+            if b == 4 and bs[2] < 1200 and rep % 2 == 0:
+                # per-trace-group layout with traces longer than one disk block, several groups
+                nZ, nT = bs[2] + rng.choice([1, 5]), max(nT, 9)
             if oracles.pad(nT, b) * oracles.pad(nZ, bs[2]) > 2_000_000:
                 nZ = max(2, min(nZ, 50))
             how = ['nonumbers', 'single-inline', 'single-crossline'][(i + rep) % 3]
